@@ -92,12 +92,19 @@ def run(rep: Report, only_params: bool = False) -> None:
     combos += [("SX", -1, True, False, False), ("SX", 5, True, False, False)]
     if only_params:
         combos = [c for c in combos if c[2] and not c[3] and not c[4]]
+    combos = [c + ("merge",) for c in combos]
+    if not only_params:
+        for variant in ("minimal", "bifurcation"):
+            for st in ("SX", "MX"):
+                for compact in (0, 1, 2):
+                    combos.append((st, compact, compact == 1, False, False, variant))
     n = 0
-    for st, compact, params, clamp, same in combos:
+    for st, compact, params, clamp, same, variant in combos:
         n += 1
         label = (f"{st} compact={compact}{' parameters' if params else ''}"
-                 f"{' clamped-initial-states' if clamp else ''}{' duplicate-element-names' if same else ''}")
-        net = CP.build_network(prog, st, same_names=same)
+                 f"{' clamped-initial-states' if clamp else ''}{' duplicate-element-names' if same else ''}"
+                 f"{'' if variant == 'merge' else ' network=' + variant}")
+        net = CP.build_network(prog, st, same_names=same, variant=variant)
         CP.set_opaque_states(net, clamp_init=clamp)
         w = net.w
         # declared in a non-alphabetical order
@@ -114,7 +121,7 @@ def run(rep: Report, only_params: bool = False) -> None:
         _, names_in, args_in, names_out, args_out, opts, it = r
         nz = M.make_normalizer(None)
         cl = min(max(compact, 0), 2)
-        key = f"{st}|c={cl}|p={params}|clamp={clamp}|same={same}"
+        key = f"{st}|c={cl}|p={params}|clamp={clamp}|same={same}|{variant}"
         try:
             in_flat = [[CP.ident_of(x, nz) for x in CP.flatten(w, a, nz)] for a in args_in]
             out_flat = [[CP.ident_of(x, nz) for x in CP.flatten(w, a, nz)] for a in args_out]
